@@ -1,5 +1,5 @@
 (* C04 — property theorems only (the wrapper model is coq/C03/Model.v, the kernels coq/C04/Model.v). *)
-From V Require Import Common.NumFacts C03.Model C03.Proofs C04.KBase C04.Model C04.Gen_kernels C04.Proofs C04.Homog.
+From V Require Import Common.NumFacts C03.Model C03.Proofs C04.KBase C04.Model C04.Gen_kernels C04.Proofs C04.Homog C04.Flx C04.FlxProofs.
 Open Scope Q_scope.
 
 (* T / P equal the specified ones in every branch that returns normally, for every oracle.
@@ -308,3 +308,82 @@ Definition st4 := mkst [4; 2; 1; 0] [0; 2; 0; 3] [[1; 1; 1; 1]] 300 101325.
 Example C04_spec_nonvacuous :
   vle cf4 orc_tp (SpTP 350 101325) st4 = VOk (mkst [4; 0; 0; 3] [0; 4; 1; 0] [[1; 1; 1; 1]] 350 101325).
 Proof. vm_compute. reflexivity. Qed.
+
+
+(* ================= the bracketing solver behind every V / H / S specification =================
+   flexsolve.IQ_interpolation as modelled in coq/C04/Flx.v (tied to the installed flexsolve by correspondence on
+   cubic residuals, evaluation counts included).  [rnd] is the rounding of each newly computed abscissa; the only
+   thing assumed of it is that a value between two numbers stays between them. *)
+
+(* "V / H / S is met within the solver's stated resolution": a normal return after the tolerance test is either a point
+   whose residual is below ytol, or an END of a bracket narrower than xtol over which the residual changes sign,
+   inside the bracket the caller supplied - for EVERY residual function f. *)
+Theorem C04_iq_within_resolution : forall rnd f, rnd_keeps_between rnd ->
+  forall c maxiter x0 x1 oy0 oy1 ox r n,
+  checkroot c = false -> given_ok f oy0 x0 -> given_ok f oy1 x1 -> f x0 * f x1 <= 0 ->
+  iq_interpolation rnd f c maxiter x0 x1 oy0 oy1 ox = Ok (r, Tol, n) ->
+  Qabs (f r) < ytol c \/
+  exists a b, f a < 0 /\ 0 < f b /\ (r = a \/ r = b) /\ Qabs (b - a) < xtol c /\ btw x0 x1 a /\ btw x0 x1 b.
+Proof. exact iq_resolution_lemma. Qed.
+Print Assumptions C04_iq_within_resolution.
+
+(* with checkroot both tolerances are met *)
+Theorem C04_iq_checked_root : forall rnd f, rnd_keeps_between rnd ->
+  forall c maxiter x0 x1 oy0 oy1 ox r n,
+  checkroot c = true -> given_ok f oy0 x0 -> given_ok f oy1 x1 -> f x0 * f x1 <= 0 ->
+  iq_interpolation rnd f c maxiter x0 x1 oy0 oy1 ox = Ok (r, Tol, n) ->
+  Qabs (f r) < ytol c /\
+  exists a b, f a < 0 /\ 0 < f b /\ (r = a \/ r = b) /\ Qabs (b - a) < xtol c /\ btw x0 x1 a /\ btw x0 x1 b.
+Proof. exact iq_checked_root_lemma. Qed.
+Print Assumptions C04_iq_checked_root.
+
+(* every other way of returning: the result never leaves the caller's bracket; a lucky guess has a small or zero
+   residual; an exact return is a root; running out of iterations (only possible with checkiter off, as vle.py calls it)
+   still leaves the result inside a sign-change bracket *)
+Theorem C04_iq_other_returns : forall rnd f, rnd_keeps_between rnd ->
+  forall c maxiter x0 x1 oy0 oy1 ox r w n,
+  given_ok f oy0 x0 -> given_ok f oy1 x1 -> f x0 * f x1 <= 0 ->
+  iq_interpolation rnd f c maxiter x0 x1 oy0 oy1 ox = Ok (r, w, n) ->
+  btw x0 x1 r /\
+  (w = Lucky -> Qabs (f r) < ytol c \/ f r == 0) /\
+  (w = Exact -> f r == 0) /\
+  (w = IterOut -> checkiter c = false /\ exists a b, f a < 0 /\ 0 < f b /\ btw a b r /\ btw x0 x1 a /\ btw x0 x1 b).
+Proof. exact iq_other_returns_lemma. Qed.
+Print Assumptions C04_iq_other_returns.
+
+(* called the way vle.py calls it (checkroot, checkiter, checkbounds off) the solver never raises, whatever the
+   residual, the bracket (even without a sign change, even of zero width), the guess and the tolerances *)
+Theorem C04_iq_total : forall rnd f, rnd_keeps_between rnd ->
+  forall c maxiter x0 x1 oy0 oy1 ox,
+  checkroot c = false -> checkiter c = false -> checkbounds c = false ->
+  exists r, iq_interpolation rnd f c maxiter x0 x1 oy0 oy1 ox = Ok r.
+Proof. exact iq_total. Qed.
+Print Assumptions C04_iq_total.
+
+(* the V specification (set_TV / set_PV reach the solver only when V(X_bubble) <= V <= V(X_dew), and pass those two
+   residuals): the returned temperature (pressure) has |V(X) - V| < V_tol, or is an end of an interval narrower than
+   T_tol (P_tol) inside [X_bubble, X_dew] across which the equilibrium vapour fraction passes the specification *)
+Theorem C04_V_spec_within_resolution : forall rnd (Vf : Q -> Q), rnd_keeps_between rnd ->
+  forall c maxiter Tb Td V guess r n,
+  checkroot c = false -> Vf Tb <= V -> V <= Vf Td ->
+  iq_interpolation rnd (fun T => Vf T - V) c maxiter Tb Td (Some (Vf Tb - V)) (Some (Vf Td - V)) guess = Ok (r, Tol, n) ->
+  Qabs (Vf r - V) < ytol c \/
+  exists a b, Vf a < V /\ V < Vf b /\ (r = a \/ r = b) /\ Qabs (b - a) < xtol c /\ btw Tb Td a /\ btw Tb Td b.
+Proof. exact iq_V_lemma. Qed.
+Print Assumptions C04_V_spec_within_resolution.
+
+(* non-vacuity: exact arithmetic (fractions kept in lowest terms) is an admissible [rnd]; a run on x^2 - 2 over [0, 2]
+   with vle.py's flags returns by the tolerance test after 7 evaluations, and a run with maxiter = 2 runs out of iterations *)
+Example C04_iq_premises_hold :
+  rnd_keeps_between Qred /\
+  (exists r n, iq_interpolation Qred (cubic (-2) 0 1 0) (mkiqcfg (1 # 100) (1 # 1000) false false false)
+                 20 0 2 None None None = Ok (r, Tol, n) /\ (4 <= n)%nat) /\
+  (exists r n, iq_interpolation Qred (cubic (-2) 0 1 0) (mkiqcfg (1 # 1000000) (1 # 1000000) false false false)
+                 2 0 2 (Some (-2)) (Some 2) (Some (3 # 2)) = Ok (r, IterOut, n)) /\
+  cubic (-2) 0 1 0 0 * cubic (-2) 0 1 0 2 <= 0.
+Proof.
+  split; [exact qred_keeps_between|]. split; [|split].
+  - eexists; eexists; split; [vm_compute; reflexivity|lia].
+  - eexists; eexists; vm_compute; reflexivity.
+  - vm_compute; discriminate.
+Qed.
